@@ -79,7 +79,7 @@ class SynTokens:
         return SynTokens(self.flat, None if self.metas is None else [clone_val(I, m) for m in self.metas], self.text)
 
     def display(self, I):
-        return [ord(c) for c in self.text]
+        return list(self.text.chars) if isinstance(self.text, RString) else [ord(c) for c in self.text]
 
     def __repr__(self):
         return "Tokens(%s)" % self.text
@@ -270,6 +270,18 @@ def punct_iter(I, a, n):
     return ListIt(deref(a[0]).items, True)
 
 
+@model(r"^syn::Fields::iter$|^syn::Fields::iter_mut$")
+def fields_iter(I, a, n):
+    f = unbox(a[0])
+    L = I.prog.layout
+    fk = L.syn_enums["Fields"][f.variant]
+    if fk == "Unit":
+        return ListIt([], True)
+    inner = f.fields[0]
+    lst = inner.fields[L.syn_structs["FieldsNamed" if fk == "Named" else "FieldsUnnamed"].index("named" if fk == "Named" else "unnamed")]
+    return ListIt(unbox(lst).items, True)
+
+
 @model(r"^syn::punctuated::Punctuated::len$")
 def punct_len(I, a, n):
     return len(deref(a[0]).items)
@@ -413,6 +425,22 @@ def token_default(I, a, n):
 # =============================================================================== token streams
 @model(r"^<.* as quote::ToTokens>::(to_token_stream|into_token_stream)$")
 def to_token_stream(I, a, n):
+    v = unbox(a[0])
+    L = I.prog.layout
+    if isinstance(v, Agg) and v.ty.split("::")[-1] == "Path" and "Path" in L.syn_structs:
+        # proc_macro2 prints a path as its tokens separated by blanks: `a :: b`, `:: a`
+        pn = L.syn_structs["Path"]
+        segs = unbox(v.fields[pn.index("segments")]).items
+        chars = []
+        if v.fields[pn.index("leading_colon")].variant != 0:
+            chars += [ord(c) for c in ":: "]
+        for k, sg in enumerate(segs):
+            if sg.fields[1].variant != 0:
+                raise Unsupported("to_token_stream of a path with generic arguments")
+            if k:
+                chars += [ord(c) for c in " :: "]
+            chars += list(sg.fields[0].s.chars)
+        return SynTokens([], None, RString(chars))
     return Opaque("TokenStream", "<tokens>")
 
 
@@ -420,7 +448,7 @@ def to_token_stream(I, a, n):
 def tokenstream_to_string(I, a, n):
     v = unbox(a[0])
     if isinstance(v, SynTokens):
-        return S(v.text)
+        return RString(list(v.text.chars)) if isinstance(v.text, RString) else S(v.text)
     return S("<tokens>")
 
 
